@@ -67,6 +67,14 @@ def _mk_cases(seed, shard, count):
                 cases.append(("deep-variant", gen.encode(msg)))
             continue
         msg = gen.rand_message(rng, fds=(rng.random() < 0.1))
+        if r >= 0.13 and r < 0.17:
+            # messages announcing descriptors, handed to a loader that holds more / as many / fewer of them
+            claimed = rng.choice([0, 1, 1, 2, 3, 17])
+            msg["fields"] = [(c, v) for c, v in msg["fields"] if c != 9]
+            msg["fields"].insert(rng.randint(0, len(msg["fields"])), (9, Variant(b"u", claimed)))
+            attached = rng.choice([0, 0, 1, 2, 3, claimed if claimed < 8 else 4])
+            cases.append(("fds:%d" % attached, gen.encode(msg)))
+            continue
         data, sites = gen.encode(msg, want_sites=True)
         if r < 0.33:
             cases.append(("valid", data))
@@ -88,9 +96,9 @@ def _mk_cases(seed, shard, count):
     return cases[:count]
 
 
-def _judge_one(part, cls, data, dres, lres):
-    se = msgoracle.StreamExpect(data)
-    first = wire.validate(data)
+def _judge_one(part, cls, data, dres, lres, nfds=0):
+    se = msgoracle.StreamExpect(data, nfds)
+    first = wire.validate(data, nfds)
     verdict = first.kind
     reason = first.reason or ""
     order = chr(data[0]) if data[:1] in (b"l", b"B") else "?"
@@ -101,6 +109,8 @@ def _judge_one(part, cls, data, dres, lres):
            "oracle": repr(first)}
 
     for which, res in (("demarshal", dres), ("loader", lres)):
+        if res == "SKIP":
+            continue
         if res is None:
             part.inconclusive.append("no result for a case (harness output missing)")
             return
@@ -117,7 +127,9 @@ def _judge_one(part, cls, data, dres, lres):
             part.violation(key, "%s crashed/hung/sanitizer report" % which, w)
             return
 
-    # ---- demarshal
+    # ---- demarshal (not for the descriptor-carrying loader cases)
+    if dres == "SKIP":
+        dres = {"msg": None, "needed": first.need if verdict == wire.VALID else None, "skip": True}
     msg = dres.get("msg")
     total = None
     fixed_bad = False
@@ -144,7 +156,7 @@ def _judge_one(part, cls, data, dres, lres):
         hb = hd.get("bytes")
         if hb is not None:
             rb = bytes.fromhex(hb)
-            r2 = wire.validate(rb)
+            r2 = wire.validate(rb, nfds=None)
             if r2.msg is None or r2.kind not in (wire.VALID, wire.UNSPECIFIED):
                 part.violation("%s:remarshal-invalid" % PROP, "%s: accepted message re-marshals to invalid bytes (%r)" % (which, r2),
                                dict(wit, remarshal=hb[:4096]))
@@ -155,7 +167,7 @@ def _judge_one(part, cls, data, dres, lres):
         part.count("messages-compared")
 
     if verdict == wire.VALID:
-        exact = (first.need == len(data))
+        exact = (first.need == len(data)) and not dres.get("skip")
         if msg is None:
             if exact:
                 part.violation("%s:rejected-but-valid:reason%s" % (PROP, lres.get("reason")), "dbus_message_demarshal rejected a valid message (%s; loader reason %s)" % (dres.get("err"), lres.get("reason")), wit)
@@ -213,11 +225,21 @@ def _worker(args):
     lines = []
     for cls, data in cases:
         hx = data.hex() or "-"
-        lines.append("D " + hx)
-        lines.append("L 0 %s -" % hx)
+        if cls.startswith("fds:"):
+            lines.append("F %s %s -" % (cls[4:], hx))    # placeholder keeps two lines per case
+            lines.append("F %s %s 1,15,3" % (cls[4:], hx))
+        else:
+            lines.append("D " + hx)
+            lines.append("L 0 %s -" % hx)
     res = hrun.run_cases(exe, lines, per_batch_timeout=300)
     for i, (cls, data) in enumerate(cases):
         part.evaluations += 1
+        if cls.startswith("fds:"):
+            nf = int(cls[4:])
+            _judge_one(part, cls, data, "SKIP", res[2 * i], nfds=nf)
+            _judge_one(part, cls + ":chunked", data, "SKIP", res[2 * i + 1], nfds=nf)
+            part.count("fd-loader-cases")
+            continue
         _judge_one(part, cls, data, res[2 * i], res[2 * i + 1])
         if i < 2 and shard == 0:
             part.sample({"class": cls, "hex": data.hex()[:600], "oracle": repr(wire.validate(data))})
